@@ -207,6 +207,7 @@ def run(chk):
             ('wide-guided', 'TokWide', 6 if quick else 7, True), ('mix-guided', 'TokMix', 5 if quick else 6, True),
             ('wide-all', 'TokWide', 3 if quick else 4, False)]
     MALFORMED = []
+    OFFSETS = []
     for tag, toks, ml, guided in plan:
         res = tlc.run_tlc('MC_Expr', expr_cfg(toks, ml, guided), workers=16)
         chk.add_tlc(res)
@@ -217,6 +218,8 @@ def run(chk):
         items = [(render(e['k']), e['r'], e['k']) for e in emits]
         if not guided:
             MALFORMED.extend(items)
+        else:
+            OFFSETS.extend((render(e['k']), e['r'], e['k']) for e in emits)
         if guided:
             items += [(render(e['k'], compact=True), e['r'], e['k']) for e in emits]
         compare(chk, items, tag)
@@ -238,6 +241,24 @@ def run(chk):
             chk.violation(f'"{tx}" is not a well-formed expression, but the program {src!r} assembles (image {o})',
                           {'config': carrier_yaml(), 'files': {'main.asm': src}}, 'rejected', o, {'kind': 'accepts-malformed-e2e'})
     chk.notes['malformed_end_to_end'] = len(jobs)
+    # an expression that continues a register: [a - 2 + 1] is the register plus the value of "- 2 + 1" (ordinary arithmetic: -1), so for a
+    # string "x op rest" over + - * ( ) whose first term is the number x, the offset of [a op rest] is value("x op rest") - x
+    offs = []
+    for tx, exp, toks in OFFSETS:
+        if len(toks) >= 3 and toks[0][0] == 'n' and toks[1][0] in '+-' and exp not in 'EUB' and all(t in ('n', '+', '-', '*', '(', ')') for t, _ in toks):
+            off = int(exp) - toks[0][1]
+            if -128 <= off <= 127:
+                offs.append((f'ldo [a {render(toks[1:])}]\n', off))
+    rng.shuffle(offs)
+    offs = offs[:400 if quick else 4000]
+    outs = runner.pmap(_e2e_src, [o[0] for o in offs])
+    for (src, off), o in zip(offs, outs):
+        chk.traces += 1
+        chk.nontriv(('offset', src))
+        want = bytes([0xD0, 1, off & 0xFF]).hex()
+        if o != want:
+            chk.violation(f'{src.strip()}: image {o}, ordinary arithmetic makes the offset {off} ({want})', {'config': carrier_yaml(), 'files': {'main.asm': src}}, want, o, {'kind': 'offset'})
+    chk.notes['register_offset_expressions'] = len(offs)
     # literal notations
     res = tlc.run_tlc('Literals', 'SPECIFICATION Spec\nCONSTANTS MaxDigits = %d\nINVARIANT ValueBound\nINVARIANT Positional\nINVARIANT Emit\n'
                       % (3 if quick else 4), workers=4)
@@ -273,6 +294,10 @@ def run(chk):
     cases = []
     for tx, exp, _ in good + [("';'", '59', None), ("';' + 1", '60', None)]:
         cases.append((tx, int(exp)))
+    # character literals written with the character itself: a tab, a blank, punctuation that means something elsewhere on a line
+    for code in (9, 32, 33, 34, 35, 36, 37, 40, 44, 46, 58, 61, 64, 91, 95, 124, 126):
+        cases.append((f"'{chr(code)}'", code))
+        cases.append((f"'{chr(code)}' * 256 + '{chr(code)}'", code * 257))
     outs = runner.pmap(_e2e, [c[0] for c in cases])
     for (tx, v), o in zip(cases, outs):
         chk.traces += 1
